@@ -2,5 +2,6 @@ import NflowsModel.Audit.Tool
 import NflowsModel.Properties.C01
 import NflowsModel.Properties.C01E
 import NflowsModel.Properties.C01J
+import NflowsModel.Properties.C01L
 
 #audit_namespace Properties.C01
